@@ -56,3 +56,35 @@ claim("C15",
       "Finished PDU built from the same unchanged block). The originating-transaction-id rule for reserved messages is not decided.",
       "trusted: as C10",
       "DESIGN.md section 2 C15")
+claim("C09",
+      "dependence analysis and tiling-idiom recognition on the checksum functions (syntax tree), abstract evaluation of the type table, EOF-construction events of the source handler's abstract transition system",
+      "Decides the structural part of the property: every non-null result of calculate_checksum depends on the prefix length (also through calc_modular_checksum), the CRC loop is the "
+      "cursor/end tiling idiom from 0 to the prefix length (consecutive, non-overlapping, complete chunks, hence independent of the chunk length), the type->algorithm table "
+      "(CRC_32->crc32, CRC_32C->crc32c, NULL->null constant before any file access, MODULAR->modular sum, others refused), verify_checksum is equality with calculate_checksum on the "
+      "same arguments, and every EOF PDU the source builds announces the size its checksum was computed over. CRC arithmetic itself (crcmod) and the modular sum arithmetic are not re-derived.",
+      "trusted: crcmod predefined CRC tables; the chunk-read helper reads what it is asked to (C17-R4)",
+      "DESIGN.md section 2 C09")
+claim("C17",
+      "syntax-tree rules over the native filestore: status-code families (sibling cross-check), precondition-before-effect order, refusal paths effect-free, open modes and seek/read/write arguments",
+      "Decides only structural necessary conditions: each operation returns status codes of its own family, no effectful host call precedes the last precondition test and refusal "
+      "paths contain no effect outside a try whose handler returns the refusal, write_data opens non-truncating and seeks to the offset before writing the data, truncate_file "
+      "truncates, create_file is exclusive, reads are read-only and seek/read the requested range. The history-quantified equivalence with a reference file-system model is NOT decided.",
+      "trusted: the host file system and the Python os/pathlib semantics",
+      "DESIGN.md section 2 C17")
+claim("C18",
+      "order-invariance dataflow check, then abstract evaluation of the tracker's source over every order type of (tracked ranges x operand endpoints) against the interval-set specification",
+      "LostSegmentTracker touches offsets only through comparisons, container positions, sorting and the zero-length idiom (checked on the syntax tree), so its behaviour depends only on "
+      "the order type of the values involved. Every order type with up to 2 (quick) / 3 (thorough) tracked ranges and every placement of the operand endpoints is evaluated through "
+      "add/remove/coalesce with the abstract interpreter and compared with the interval-set specification: denoted set, representation invariant (ascending, non-empty, disjoint), "
+      "no adjacent ranges after coalescing, changed-flag, ValueError with an unchanged map for a straddling removal. The invariant is inductive, so the result covers every history "
+      "within the stated preconditions.",
+      "assumed: generalisation from k<=3 tracked ranges to any k (operations examine each tracked range independently); dict/sorted semantics as modelled in libmodel.py",
+      "DESIGN.md section 2 C18")
+claim("C19",
+      "put_request edges of the source handler's abstract transition system (request x MIB x state), configuration-table key check on the syntax tree, focused abstract run of the transaction start with origin terms",
+      "Decides admission (busy => False with no store, PDU or environment call on any abstract path; the two documented raises leave the handler idle), the override tables for "
+      "mode and closure over every combination of request-level and MIB-level values, the remote-configuration lookup key, the segment-length decision table (derived or configured, "
+      "the configured one only under configured < derived) and that every transaction start obtains exactly one value from the sequence-number provider which is the origin of both "
+      "the PDU sequence number and the transaction id.",
+      "trusted: as C10; uniqueness of ids additionally rests on the provider returning fresh values (user-supplied object)",
+      "DESIGN.md section 2 C19")
